@@ -26,7 +26,7 @@ import (
 func init() {
 	register(stream{
 		name: "token",
-		rule: "envelopes built by the harness itself (go-ipld-prime + libp2p, not go-ucan's envelope code) and offered to token.FromSealed / delegation.FromSealed / invocation.FromSealed and the DAG-JSON equivalents: (fields) every payload field of a valid delegation and invocation × {dropped, null, retyped to each IPLD kind, out-of-range, empty, malformed DID/command/policy/selector/pattern, short nonce} and an added unknown key, each CORRECTLY RE-SIGNED; (envelope) wrong, foreign or missing varsig header, extra SigPayload entry, extra outer element, swapped and unknown tags, signature by another key, truncated/empty/non-bytes signature, every payload field and the varsig header rewritten while KEEPING THE OLD SIGNATURE (after the genuine token was decoded), header variants with foreign hash/encoding/segments, a genuine and a forged token decoded from 8 goroutines at once; (bits) every single-bit flip of a sealed Ed25519 delegation and invocation; (values) every Go integer type at its boundary values through literal.Any (directly and nested), args.Add and meta.Add — stored exactly or rejected; (roundtrip) tokens from the constructors under every option combination × Ed25519/secp256k1/P-256/P-384/P-521 (RSA thorough) × {DAG-CBOR, DAG-JSON} × {generic, typed}. Compared: accept/reject and every decoded field. Non-trivial = all but the unmodified fixtures. Distinct = distinct protocol lines.",
+		rule: "envelopes built by the harness itself (go-ipld-prime + libp2p, not go-ucan's envelope code) and offered to token.FromSealed / delegation.FromSealed / invocation.FromSealed and the DAG-JSON equivalents: (fields) every payload field of a valid delegation and invocation × {dropped, null, retyped to each IPLD kind, out-of-range, empty, malformed DID/command/policy/selector/pattern, short nonce} and an added unknown key, each CORRECTLY RE-SIGNED; (envelope) wrong, foreign or missing varsig header, extra SigPayload entry, extra outer element, swapped and unknown tags, signature by another key, truncated/empty/non-bytes signature, every payload field and the varsig header rewritten while KEEPING THE OLD SIGNATURE (after the genuine token was decoded), header variants with foreign hash/encoding/segments, a genuine and a forged token decoded from 8 goroutines at once; (bits) every single-bit flip of a sealed Ed25519 delegation and invocation; (values) every Go integer type at its boundary values through literal.Any (directly and nested), args.Add and meta.Add — stored exactly or rejected; (roundtrip) tokens from the constructors under every option combination × Ed25519/secp256k1/P-256/P-384/P-521 (RSA thorough) × {DAG-CBOR, DAG-JSON} × {generic, typed}. Compared: accept/reject and every decoded field. Added later: signatures of 257…65537 bytes (junk, padded, doubled); int64 extremes and pre-1970 instants in policy, arguments, metadata and time fields; round-trip option bits for instants at year 1/1000/1969, audience = subject and floats without fraction (the last is the open finding F-C07-dagjson-integral-float, in a class of its own); stream reads right after failed stream reads; a token naming issuer A but signed by B decoded while A's and B's keys are extracted concurrently (rounds bounded by time); ready-made IPLD nodes with out-of-range integers alone, in IPLD containers and in Go containers through Args.Add / literal.Any / WithArgument / WithMeta (kept ⇒ in range; seals ⇒ unseals); constructor well-formedness under unusual nonce options; command text assembled by New/Join stays refused, valid commands with empty segments are kept byte for byte. Non-trivial = all but the unmodified fixtures. Distinct = distinct protocol lines.",
 		run:  runTokenStream,
 		eval: evalToken,
 		cmp: func(line, g, m string) string {
